@@ -316,6 +316,22 @@ class Model:
                 self.kinds[name] = 'K'
                 self.specs[name] = {'k': 'K', 'n': name, 'c': 0.5, 'up': [u.name for u in ups]}
                 self.late_assets.append(self.D[name])
+        elif kind == 'newline':
+            def f(ups=[D[u] for u in a[3]], c=a[4]):
+                # a processor and its sink created after the simulation has started (between two runs)
+                note('PX')
+                px = WP('PX', ups, c)
+                px.model = self
+                px.wo_dur, px.wo_cap, px.wo_cost = 1, 1, 0
+                px._received_part_callbacks.insert(0, self._first)
+                kx = Sink('KPX', [px], 0, collect_parts=True)
+                kx._received_part_callbacks.insert(0, self._first)
+                for o, k, spec_ in ((px, 'P', {'k': 'P', 'n': 'PX', 'c': c, 'up': [u.name for u in ups]}),
+                                    (kx, 'K', {'k': 'K', 'n': 'KPX', 'c': 0, 'up': ['PX']})):
+                    self.D[o.name] = o
+                    self.kinds[o.name] = k
+                    self.specs[o.name] = spec_
+                    self.late_assets.append(o)
         elif kind == 'rewire_add':
             def f(x=D[a[3]], u=D[a[4]]):
                 if u not in x.upstream:     # W9: never a duplicate
@@ -352,8 +368,10 @@ def holdings(dev):
     return out
 
 
-def ready_part(dev, env):
-    """The part the device would hand over right now, or None."""
+def ready_part(dev, env, strict=False):
+    """The part the device would hand over right now, or None. strict (float-noise models): a buffered part only
+    counts as ready once it is overdue by more than two roundings of the clock in exact arithmetic - at the very
+    instant it becomes due the buffer's own timer may legitimately lie one rounding later."""
     if isinstance(dev, Sink) or not isinstance(dev, PartHandler):
         return None
     if not dev.is_operational():
@@ -363,6 +381,11 @@ def ready_part(dev, env):
             return None
         t0, p = dev._buffer[0]
         ulp = math.ulp(env.now) if env.now else 5e-324
+        if strict:
+            from fractions import Fraction
+            if Fraction(env.now) - Fraction(t0) - Fraction(dev.minimum_delay) <= 2 * Fraction(ulp):
+                return None
+            return p
         if dev.minimum_delay - (env.now - t0) > ulp:
             return None
         return p
